@@ -32,24 +32,92 @@ use std::time::Duration;
 
 pub(super) const KA: &str = "a";
 pub(super) const KB: &str = "b";
+/// Model-side encoding of "what is filed under a key": 0 = nothing, 1 = null, 2 = false, 3 = true.
+/// (Plain integers keep every model-side comparison a one-word comparison for the solver.)
+pub(super) type Code = u8;
+pub(super) const NONE: Code = 0;
+pub(super) fn enc(v: Option<Value>) -> Code {
+    match v {
+        None => 0,
+        Some(Value::Null) => 1,
+        Some(Value::Bool(false)) => 2,
+        Some(Value::Bool(true)) => 3,
+        // numbers are outside the bound of the harness; 4 never equals a model code
+        Some(Value::Number(_)) => 4,
+    }
+}
+pub(super) fn dec(c: Code) -> Option<Value> {
+    match c {
+        0 => None,
+        1 => Some(Value::Null),
+        2 => Some(Value::Bool(false)),
+        _ => Some(Value::Bool(true)),
+    }
+}
 /// Model map over the two keys of the bound: index 0 = "a", index 1 = "b".
-pub(super) type VMap = [Option<Value>; 2];
-pub(super) const EMPTY: VMap = [None, None];
+pub(super) type VMap = [Code; 2];
+pub(super) const EMPTY: VMap = [NONE, NONE];
 
 pub(super) fn fmt_stub(_a: std::fmt::Arguments<'_>) -> String {
     String::new()
 }
 
-pub(super) fn any_value() -> Value {
-    let k: u8 = kani::any();
-    match k % 3 {
-        0 => Value::Null,
-        1 => Value::Bool(false),
-        _ => Value::Bool(true),
+// ---------------------------------------------------------------------------------------------
+// Tracing for native replay. `cfg(test)` is only set when a counterexample is played back
+// natively (`cargo kani playback` builds the crate's test harness); during verification these
+// functions have empty bodies and cost nothing.
+// ---------------------------------------------------------------------------------------------
+#[cfg(test)]
+pub(super) fn vtrace(line: String) {
+    eprintln!("VTRACE {line}");
+}
+#[cfg(not(test))]
+pub(super) fn vtrace_world(_w: &World) {}
+#[cfg(not(test))]
+pub(super) fn vtrace_op(_name: &str, _key: usize, _v: Code) {}
+#[cfg(test)]
+fn jv(v: &Code) -> String {
+    match dec(*v) {
+        None => "null".to_string(),
+        Some(Value::Null) => "\"nil\"".to_string(),
+        Some(Value::Bool(b)) => format!("{b}"),
+        Some(Value::Number(n)) => format!("{n}"),
     }
 }
-pub(super) fn any_opt_value() -> Option<Value> {
-    if kani::any() { Some(any_value()) } else { None }
+#[cfg(test)]
+fn jm(m: &VMap) -> String {
+    format!("[{},{}]", jv(&m[0]), jv(&m[1]))
+}
+#[cfg(test)]
+pub(super) fn vtrace_world(w: &World) {
+    let sh = &w.sh;
+    let rec = |r: &Rec| if r.present { format!("{{\"state\":{},\"ttl\":{}}}", jm(&r.state), r.ttl) } else { "null".to_string() };
+    vtrace(format!(
+        "{{\"kind\":\"world\",\"idk\":{},\"ssk\":{},\"smap\":{},\"rem_ttl\":{},\"client_updated\":{},\"cmap\":{},\"invalidated\":{},\"rec_o\":{},\"rec_n\":{},\"rec_x\":{},\"extend_on_loads\":{},\"threshold\":{},\"never_skip\":{},\"allow\":{}}}",
+        sh.idk as u8, sh.ssk as u8, jm(&sh.smap), sh.rem_ttl, sh.client_updated, jm(&sh.cmap), sh.invalidated,
+        rec(&w.db0[0]), rec(&w.db0[1]), rec(&w.db0[2]),
+        w.cfg.state.extend_ttl == TtlExtensionTrigger::OnStateLoadsAndChanges,
+        w.cfg.state.ttl_extension_threshold.is_some(),
+        w.cfg.state.server_state_creation == ServerStateCreation::NeverSkip,
+        w.allow,
+    ));
+}
+#[cfg(test)]
+pub(super) fn vtrace_op(name: &str, key: usize, v: Code) {
+    vtrace(format!("{{\"kind\":\"op\",\"op\":\"{name}\",\"key\":\"{}\",\"value\":{}}}", if key == 0 { "a" } else { "b" }, jv(&v)));
+}
+
+/// a present value (code 1..=3)
+pub(super) fn any_value() -> Code {
+    let k: u8 = kani::any();
+    kani::assume(k >= 1 && k <= 3);
+    k
+}
+/// a value or nothing (code 0..=3)
+pub(super) fn any_opt_value() -> Code {
+    let k: u8 = kani::any();
+    kani::assume(k <= 3);
+    k
 }
 pub(super) fn any_vmap() -> VMap {
     [any_opt_value(), any_opt_value()]
@@ -59,8 +127,8 @@ pub(super) fn any_key() -> (usize, &'static str) {
 }
 pub(super) fn to_state(m: &VMap) -> State {
     // "a" may sit in either slot: the slot order of a real map is arbitrary too
-    let ea = m[0].map(|v| (Cow::Borrowed(KA), v));
-    let eb = m[1].map(|v| (Cow::Borrowed(KB), v));
+    let ea = dec(m[0]).map(|v| (Cow::Borrowed(KA), v));
+    let eb = dec(m[1]).map(|v| (Cow::Borrowed(KB), v));
     if kani::any() { State::from_slots([ea, eb]) } else { State::from_slots([eb, ea]) }
 }
 /// Read a map back. Keys outside the bound ({"a","b"}) or duplicates make the result `None`-free
@@ -70,11 +138,11 @@ pub(super) fn of_state(s: &State) -> VMap {
     let e = s.entries();
     if let Some((k, v)) = e[0] {
         let b = k.as_bytes();
-        if b.len() == 1 && b[0] == b'a' { m[0] = Some(*v) } else if b.len() == 1 && b[0] == b'b' { m[1] = Some(*v) }
+        if b.len() == 1 && b[0] == b'a' { m[0] = enc(Some(*v)) } else if b.len() == 1 && b[0] == b'b' { m[1] = enc(Some(*v)) }
     }
     if let Some((k, v)) = e[1] {
         let b = k.as_bytes();
-        if b.len() == 1 && b[0] == b'a' { m[0] = Some(*v) } else if b.len() == 1 && b[0] == b'b' { m[1] = Some(*v) }
+        if b.len() == 1 && b[0] == b'a' { m[0] = enc(Some(*v)) } else if b.len() == 1 && b[0] == b'b' { m[1] = enc(Some(*v)) }
     }
     m
 }
@@ -90,7 +158,7 @@ pub(super) fn state_ok(s: &State) -> bool {
     }
 }
 pub(super) fn vmap_is_empty(m: &VMap) -> bool {
-    m[0].is_none() && m[1].is_none()
+    m[0] == NONE && m[1] == NONE
 }
 
 // ---------------------------------------------------------------------------------------------
@@ -547,11 +615,11 @@ impl Model {
             }
         }
     }
-    pub fn server_get(&mut self, db: &Db, allow: bool, k: usize) -> Option<Value> {
+    pub fn server_get(&mut self, db: &Db, allow: bool, k: usize) -> Code {
         self.look(db, allow);
         match self.view {
             View::Present(m) => m[k],
-            _ => None,
+            _ => NONE,
         }
     }
     pub fn server_is_empty(&mut self, db: &Db, allow: bool) -> bool {
@@ -561,35 +629,35 @@ impl Model {
             _ => true,
         }
     }
-    pub fn server_insert(&mut self, db: &Db, allow: bool, k: usize, v: Value) -> Option<Value> {
+    pub fn server_insert(&mut self, db: &Db, allow: bool, k: usize, v: Code) -> Code {
         self.look(db, allow);
         match self.view {
             // a record that is being deleted takes no more values
-            View::Deleted => None,
+            View::Deleted => NONE,
             View::Absent | View::NotLooked => {
                 let mut m = EMPTY;
-                m[k] = Some(v);
+                m[k] = v;
                 self.view = View::Present(m);
-                None
+                NONE
             }
             View::Present(mut m) => {
                 let old = m[k];
-                m[k] = Some(v);
+                m[k] = v;
                 self.view = View::Present(m);
                 old
             }
         }
     }
-    pub fn server_remove(&mut self, db: &Db, allow: bool, k: usize) -> Option<Value> {
+    pub fn server_remove(&mut self, db: &Db, allow: bool, k: usize) -> Code {
         self.look(db, allow);
         match self.view {
             View::Present(mut m) => {
                 let old = m[k];
-                m[k] = None;
+                m[k] = NONE;
                 self.view = View::Present(m);
                 old
             }
-            _ => None,
+            _ => NONE,
         }
     }
     pub fn server_clear(&mut self, db: &Db, allow: bool) {
@@ -610,26 +678,26 @@ impl Model {
         self.invalidated = true;
         self.view = View::Deleted;
     }
-    pub fn client_get(&self, k: usize) -> Option<Value> {
-        if self.invalidated { None } else { self.client[k] }
+    pub fn client_get(&self, k: usize) -> Code {
+        if self.invalidated { NONE } else { self.client[k] }
     }
     pub fn client_is_empty(&self) -> bool {
         self.invalidated || vmap_is_empty(&self.client)
     }
-    pub fn client_insert(&mut self, k: usize, v: Value) -> Option<Value> {
+    pub fn client_insert(&mut self, k: usize, v: Code) -> Code {
         if self.invalidated {
-            return None;
+            return NONE;
         }
         let old = self.client[k];
-        self.client[k] = Some(v);
+        self.client[k] = v;
         old
     }
-    pub fn client_remove(&mut self, k: usize) -> Option<Value> {
+    pub fn client_remove(&mut self, k: usize) -> Code {
         if self.invalidated {
-            return None;
+            return NONE;
         }
         let old = self.client[k];
-        self.client[k] = None;
+        self.client[k] = NONE;
         old
     }
     pub fn client_clear(&mut self) {
@@ -664,7 +732,9 @@ pub(super) fn any_world_k(cookie: SessionCookieConfig, only: Option<IdK>) -> Wor
     let store: &'static SessionStore = Box::leak(Box::new(SessionStore::new(Mem(db))));
     let allow = cfg.state.missing_server_state == MissingServerState::Allow;
     let db0 = db.borrow().recs;
-    World { sh, db, store, cfg, allow, model: abs(&sh), db0 }
+    let w = World { sh, db, store, cfg, allow, model: abs(&sh), db0 };
+    vtrace_world(&w);
+    w
 }
 
 /// After an in-request operation: abstraction of the new state == new model state, INV again,
@@ -704,10 +774,12 @@ fn c11_step_server_get() {
     let mut m = w.model;
     let (ki, k) = any_key();
     if kani::any() {
-        let got = s.get_raw(k).map(|o| o.copied());
+        vtrace_op("server_get", ki, NONE);
+        let got = s.get_raw(k).map(|o| enc(o.copied()));
         let want = m.server_get(&w.db.borrow(), w.allow, ki);
         assert!(matches!(got, Ok(g) if g == want), "get_raw returned a value other than the one the session holds");
     } else {
+        vtrace_op("server_is_empty", ki, NONE);
         let got = s.is_empty();
         let want = m.server_is_empty(&w.db.borrow(), w.allow);
         assert!(matches!(got, Ok(g) if g == want), "is_empty disagrees with the reference model");
@@ -731,11 +803,12 @@ fn c11_step_server_insert() {
     let mut m = w.model;
     let (ki, k) = any_key();
     let v = any_value();
-    let got = s.insert_raw(k, v);
+    vtrace_op("server_insert", ki, v);
+    let got = s.insert_raw(k, dec(v).unwrap()).map(enc);
     let want = m.server_insert(&w.db.borrow(), w.allow, ki, v);
     assert!(matches!(got, Ok(g) if g == want), "insert_raw returned the wrong previous value");
     check_step(&w, &s, &m);
-    kani::cover!(w.sh.ssk == SsK::Unchanged && want.is_some(), "overwrote a loaded value");
+    kani::cover!(w.sh.ssk == SsK::Unchanged && want != NONE, "overwrote a loaded value");
     kani::cover!(w.sh.ssk == SsK::DoesNotExist, "first value of a missing record");
     std::mem::forget(s);
 }
@@ -752,12 +825,13 @@ fn c11_step_server_remove() {
     let mut s = build(&w.sh, w.store, w.cfg);
     let mut m = w.model;
     let (ki, k) = any_key();
-    let got = s.remove_raw(k);
+    vtrace_op("server_remove", ki, NONE);
+    let got = s.remove_raw(k).map(enc);
     let want = m.server_remove(&w.db.borrow(), w.allow, ki);
     assert!(matches!(got, Ok(g) if g == want), "remove_raw returned the wrong value");
     check_step(&w, &s, &m);
-    kani::cover!(w.sh.ssk == SsK::Unchanged && want.is_some(), "removed a key from a loaded state");
-    kani::cover!(w.sh.ssk == SsK::NotLoaded && want.is_some(), "removed a key from a lazily loaded state");
+    kani::cover!(w.sh.ssk == SsK::Unchanged && want != NONE, "removed a key from a loaded state");
+    kani::cover!(w.sh.ssk == SsK::NotLoaded && want != NONE, "removed a key from a lazily loaded state");
     std::mem::forget(s);
 }
 
@@ -774,6 +848,7 @@ fn c11_step_server_lifecycle() {
     let mut m = w.model;
     let op: u8 = kani::any();
     kani::assume(op < 5);
+    vtrace_op(["server_clear", "delete", "invalidate", "cycle_id", "force_load"][op as usize], 0, NONE);
     match op {
         0 => {
             assert!(s.clear().is_ok(), "clear failed");
@@ -833,11 +908,13 @@ fn c11_step_client_ops() {
     let (ki, k) = any_key();
     let op: u8 = kani::any();
     kani::assume(op < 5);
+    let cv = any_value();
+    vtrace_op(["client_get", "client_is_empty", "client_insert", "client_remove", "client_clear"][op as usize], ki, if op == 2 { cv } else { NONE });
     match op {
         0 => {
-            let got = s.client().get_raw(k).copied();
+            let got = enc(s.client().get_raw(k).copied());
             assert!(got == m.client_get(ki), "client get_raw returned another value");
-            let got2 = s.client_mut().get_raw(k).copied();
+            let got2 = enc(s.client_mut().get_raw(k).copied());
             assert!(got2 == got, "client() and client_mut() disagree");
         }
         1 => {
@@ -845,12 +922,12 @@ fn c11_step_client_ops() {
             assert!(s.client_mut().is_empty() == m.client_is_empty());
         }
         2 => {
-            let v = any_value();
-            let got = s.client_mut().insert_raw(k, v);
+            let v = cv;
+            let got = enc(s.client_mut().insert_raw(k, dec(v).unwrap()));
             assert!(got == m.client_insert(ki, v), "client insert_raw returned the wrong previous value");
         }
         3 => {
-            let got = s.client_mut().remove_raw(k);
+            let got = enc(s.client_mut().remove_raw(k));
             assert!(got == m.client_remove(ki), "client remove_raw returned the wrong value");
         }
         _ => {
@@ -864,7 +941,7 @@ fn c11_step_client_ops() {
     assert!(sh2.client_updated || sh2.cmap == w.sh.cmap, "client-side values changed but the state is still flagged unchanged");
     assert!(sh2.ssk == w.sh.ssk && sh2.smap == w.sh.smap, "a client-side operation touched the server-side state");
     kani::cover!(op == 2 && !w.sh.invalidated && !w.sh.client_updated, "first client-side write");
-    kani::cover!(op == 3 && !w.sh.invalidated && w.sh.cmap[ki].is_some(), "client-side removal of an existing key");
+    kani::cover!(op == 3 && !w.sh.invalidated && w.sh.cmap[ki] != NONE, "client-side removal of an existing key");
     std::mem::forget(s);
 }
 
@@ -959,6 +1036,7 @@ pub(super) struct SyncOut {
 fn sync_body(only: IdK) -> SyncOut {
     let w = any_world_k(default_cookie(), Some(only));
     let mut s = build(&w.sh, w.store, w.cfg);
+    vtrace_op("sync", 0, NONE);
     let r = s.sync();
     let ok = r.is_ok();
     std::mem::forget(r);
@@ -1040,10 +1118,10 @@ pub(super) fn decode_tape() -> Option<(u128, VMap)> {
                     let k = if b[0] == b'a' { 0 } else if b[0] == b'b' { 1 } else { return None };
                     match t.toks[i + 1] {
                         Tok::Scalar(v) => {
-                            if m[k].is_some() {
+                            if m[k] != NONE {
                                 return None;
                             }
-                            m[k] = Some(v)
+                            m[k] = enc(Some(v))
                         }
                         _ => return None,
                     }
@@ -1069,6 +1147,7 @@ fn finalize_body(only: IdK) -> (u8, bool, bool) {
     let w = any_world_k(default_cookie(), Some(only));
     let mut s = build(&w.sh, w.store, w.cfg);
     let m = w.model;
+    vtrace_op("finalize", 0, NONE);
     let r = s.finalize();
     let cur = if w.sh.cur == ID_N { 1 } else { 0 };
     match &r {
@@ -1154,3 +1233,14 @@ fn c11_finalize_new() {
     kani::cover!(code == 3 && client_vals, "cookie with client-side values");
 }
 
+
+#[kani::proof]
+#[kani::unwind(4)]
+#[kani::stub(std::fmt::format, fmt_stub)]
+fn dbg_f_full() {
+    let w = any_world(default_cookie());
+    let s = build(&w.sh, w.store, w.cfg);
+    let m = w.model;
+    check_step(&w, &s, &m);
+    std::mem::forget(s);
+}
